@@ -14,6 +14,8 @@ import tempfile
 VERIF = os.path.dirname(os.path.dirname(os.path.abspath(__file__)))
 man = json.load(open(os.path.join(VERIF, "MANIFEST.json")))
 ids = [c["property_id"] for c in man["checks"]]
+if os.environ.get("OAS_ONLY_CHECKS"):  # e.g. OAS_ONLY_CHECKS=C06,C19 after editing only those rule modules
+    ids = [i for i in ids if i in os.environ["OAS_ONLY_CHECKS"].split(",")]
 
 
 UPDATE = False
